@@ -36,7 +36,7 @@ def run(chk):
         if not ok2:
             raise RuntimeError("harness does not build even without hooks: " + blog2[-600:])
     else:
-        dis, stats, sample = bufcorr.run(chk, binp, 900 if thorough else 300, tag="c03buf", seed_offset=3)
+        dis, stats, sample = bufcorr.run(chk, binp, 3000 if thorough else 300, tag="c03buf", seed_offset=3)
         chk.note("buffer_correspondence", stats)
         chk.add_eval(stats["steps"], stats["steps_followed_by_model"])
         chk.sample({"buffer_op_sequence": sample})
